@@ -124,7 +124,12 @@ SCENARIOS = {
     "optimiser_crashes": ([1, 2, 3], True, None, 2, 1),
     "revisit_start": ([0, 1, 0], True, None, None, 1),
     "global_only": ([3, 1], False, None, None, 1),
+    # the simulated-annealing optimiser mutates ONE working vector in place between evaluations
+    "inplace_walk": ([1, 2, 3], False, None, None, 3),
+    "inplace_walk_limit": ([1, 2, 3, 2], False, 3, None, 3),
+    "inplace_then_local": ([2, 1], None, None, None, 1),
 }
+INPLACE = {"inplace_walk", "inplace_walk_limit", "inplace_then_local"}
 
 
 def mk_wrapper(scenario, _replay=None):
@@ -141,7 +146,7 @@ def mk_wrapper(scenario, _replay=None):
 
         def f(x):
             calls.append(float(x[0]))
-            return values[int(x[0])]
+            return values[int(round(float(x[0])))]
 
         visited = []
 
@@ -150,10 +155,15 @@ def mk_wrapper(scenario, _replay=None):
                 pass
 
             def maximise(self, fn, x, **kw):
+                work = numpy.array(x, float)  # the optimiser's own working vector
                 for step, lab in enumerate(seq if not Stub.used else seq[::-1]):
                     if raise_at is not None and step == raise_at:
                         raise _Stop("optimiser crashed")
-                    xv = numpy.array([float(lab)])
+                    if scenario in INPLACE:
+                        work[0] = float(lab)  # modified in place and handed to f again, as the annealer does
+                        xv = work
+                    else:
+                        xv = numpy.array([float(lab)])
                     visited.append((lab, fn(xv)))
                 Stub.used = True
                 return numpy.array([float(ret)])
